@@ -351,9 +351,16 @@ class ODF2MoinMoin(object):
 
     def text_note(self, node):
         cite = self.textToString(node.getElementsByTagName("text:note-citation")[0])
-        body = (node.getElementsByTagName("text:note-body")[0]
-                    .childNodes[0])
-        self.footnotes.append((cite, self.textToString(body)))
+        body = node.getElementsByTagName("text:note-body")[0]
+        parts = []
+        for child in body.childNodes:
+            if child.nodeType != xml.dom.Node.ELEMENT_NODE:
+                continue
+            if child.tagName == "text:list":
+                parts.append(self.listToString(child))
+            else:
+                parts.append(self.textToString(child))
+        self.footnotes.append((cite, " ".join(parts)))
         return "^%s^" % cite
 
     def text_s(self, node):
